@@ -905,7 +905,7 @@ func wJudge(c *ctx, r *wRun, d *Driver, impl *[]string, ins *[]wInput) {
 		if !r.hang.Deadlock {
 			cls = "timeout"
 		}
-		op := map[string]string{"w": "write", "f": "flush", "wt": "wait", "c": "close"}[r.hang.Op]
+		op := map[string]string{"w": "write", "f": "flush", "wt": "wait", "c": "close", "bam.c": "bam-close", "bam.rec": "bam-write", "bam.NewWriter": "bam-newwriter"}[r.hang.Op]
 		if op == "" {
 			op = r.hang.Op
 		}
